@@ -129,7 +129,7 @@ def behavior(instance_mode: str = "session", instance_creator: Optional[Callable
             raise TypeError("behavior decorator can only be used on a class")
         if instance_mode not in ("single", "session", "percall"):
             raise ValueError("invalid instance mode: " + instance_mode)
-        if instance_creator and not callable(instance_creator):
+        if instance_creator is not None and not callable(instance_creator):
             raise TypeError("instance_creator must be a callable")
         clazz._pyroInstancing = (instance_mode, instance_creator)
         return clazz
@@ -599,7 +599,7 @@ class Daemon(object):
         """
         def createInstance(clazz, creator):
             try:
-                if creator:
+                if creator is not None:
                     obj = creator(clazz)
                     if isinstance(obj, clazz):
                         return obj
